@@ -235,6 +235,8 @@ def build(rng, family):
     if rng.random() < 0.25:
         rng.shuffle(main.cells)
         main.tags.add('cells.unordered')
+    if rng.random() < 0.3:
+        M.shuffle_options(main, rng)
     main.trs.sort(key=lambda t: t.id)
     main.mats.sort(key=lambda m: m.id)
     main.hints = hints
